@@ -26,6 +26,7 @@ CONSTANTS NT, Cap, PopRetries, MaxNodes,
           Progs,         \* per thread (index t + 1): the sequence of operations it performs, e.g. <<"push", "pop">>
           SetupOps,      \* thread 0 runs its first SetupOps operations before anybody else starts
 
+          Bounded,       \* TRUE: xenium::nikolaev_bounded_queue - one pair of rings, try_push fails when no free entry is left
           KeepFin,       \* TRUE: catchup preserves the finalized flag of _tail (code)
           SecondLook     \* TRUE: do_pop raises the threshold and dequeues once more before it moves _head on (code)
 
@@ -60,7 +61,7 @@ L0 == [n |-> 0, v |-> 0, r |-> "aq", cont |-> "idle", finz |-> FALSE, x |-> 0, i
        ev |-> 0, m |-> 0, t |-> 0, h |-> 0, idx |-> 0]
 Init == /\ pc = [t \in Threads |-> "idle"]
         /\ loc = [t \in Threads |-> L0]
-        /\ lin = [mon |-> MonInit(QInit), taken |-> {}, bad |-> "ok"]
+        /\ lin = [mon |-> MonInit(IF Bounded THEN QCfg(QInit, "kind_nikbounded", Cap, 0) ELSE QInit), taken |-> {}, bad |-> "ok"]
         /\ budget = [t \in Threads |-> 1]                 \* index of the next operation in Progs[t + 1]
         /\ nextv = 1
         \* the first node: nikolaev_queue() : new node() - allocated queue empty, free queue full
@@ -82,7 +83,7 @@ UQ == UNCHANGED <<lin, budget, nextv, stor, nxt, qhead, qtail, used, bad>>
 IsPop(t) == loc[t].cont = "q_done"
 Return(t, r, v, popping) ==
   /\ lin' = [mon |-> MonRet(lin.mon, t, r, v),
-             taken |-> IF popping /\ r = 1 THEN lin.taken \cup {v} ELSE lin.taken,
+             taken |-> IF (popping /\ r = 1) \/ (~popping /\ r = 0) THEN lin.taken \cup {v} ELSE lin.taken,   \* popped, or rejected by try_push
              bad |-> IF popping /\ r = 1 /\ lin.bad = "ok" /\ (v \notin 1 .. nextv - 1 \/ v \in lin.taken)
                        THEN "a value was popped twice or invented" ELSE lin.bad]
   /\ Goto(t, "idle")
@@ -201,10 +202,10 @@ MayStart(t, op) == /\ pc[t] = "idle" /\ budget[t] <= Len(Progs[t + 1]) /\ Progs[
                    /\ (t = 0 \/ (budget[0] > SetupOps /\ (budget[0] > SetupOps + 1 \/ pc[0] = "idle" \/ SetupOps = 0)))
 StartPush(t) == /\ MayStart(t, "push")
                 /\ budget' = [budget EXCEPT ![t] = @ + 1]
-                /\ loc' = [loc EXCEPT ![t] = [L0 EXCEPT !.v = nextv]]
+                /\ loc' = [loc EXCEPT ![t] = IF Bounded THEN CallDeq([L0 EXCEPT !.v = nextv, !.m = 1], 1, "fq", "b_deq") ELSE [L0 EXCEPT !.v = nextv]]
                 /\ nextv' = nextv + 1
                 /\ lin' = [lin EXCEPT !.mon = MonCall(@, t, "push", nextv, 0)]
-                /\ Goto(t, "p_tail") /\ Acc(t, "call", "push", nextv, 1)
+                /\ Goto(t, IF Bounded THEN "d_thr" ELSE "p_tail") /\ Acc(t, "call", "push", nextv, 1)
                 /\ UNCHANGED <<ring, stor, nxt, qhead, qtail, used, bad>>
 p_tail(t) == /\ pc[t] = "p_tail"
              /\ loc' = [loc EXCEPT ![t].m = qtail] /\ Acc(t, "ld", "p_tail", qtail, 1)
@@ -277,9 +278,9 @@ p_swing(t) == /\ pc[t] = "p_swing"
 \* ---------------------------------------------------------------- nikolaev_queue::do_pop
 StartPop(t) == /\ MayStart(t, "pop")
                /\ budget' = [budget EXCEPT ![t] = @ + 1]
-               /\ loc' = [loc EXCEPT ![t] = L0]
+               /\ loc' = [loc EXCEPT ![t] = IF Bounded THEN CallDeq([L0 EXCEPT !.m = 1], 1, "aq", "b_pdeq") ELSE L0]
                /\ lin' = [lin EXCEPT !.mon = MonCall(@, t, "pop", 0, 0)]
-               /\ Goto(t, "q_head") /\ Acc(t, "call", "pop", 0, 1)
+               /\ Goto(t, IF Bounded THEN "d_thr" ELSE "q_head") /\ Acc(t, "call", "pop", 0, 1)
                /\ UNCHANGED <<nextv, ring, stor, nxt, qhead, qtail, used, bad>>
 q_head(t) == /\ pc[t] = "q_head"
              /\ loc' = [loc EXCEPT ![t] = CallDeq([@ EXCEPT !.m = qhead], qhead, "aq", "q_deq1")] /\ Acc(t, "ld", "q_head", qhead, 1)
@@ -312,7 +313,22 @@ q_done(t) == /\ pc[t] = "q_done"
              /\ Return(t, 1, loc[t].v, TRUE)
              /\ UNCHANGED <<loc, budget, nextv, ring, stor, nxt, qhead, qtail, used, bad, last>>
 
-ThreadStep(t) == \/ StartPush(t) \/ StartPop(t)
+\* ---------------------------------------------------------------- nikolaev_bounded_queue::try_push / try_pop
+b_deq(t) == /\ pc[t] = "b_deq"
+            /\ IF ~loc[t].ok THEN Return(t, 0, loc[t].v, FALSE) /\ UNCHANGED <<loc, stor>>
+               ELSE /\ stor' = [stor EXCEPT ![1][loc[t].val] = loc[t].v]
+                    /\ loc' = [loc EXCEPT ![t] = CallEnq(@, 1, "aq", loc[t].val, FALSE, "b_enq")]
+                    /\ Goto(t, "e_faa") /\ UNCHANGED lin
+            /\ UNCHANGED <<budget, nextv, ring, nxt, qhead, qtail, used, bad, last>>
+b_enq(t) == /\ pc[t] = "b_enq"
+            /\ Return(t, 1, loc[t].v, FALSE)
+            /\ bad' = IF bad = "ok" /\ ~loc[t].ok THEN "enqueue on the allocated ring failed" ELSE bad
+            /\ UNCHANGED <<loc, budget, nextv, ring, stor, nxt, qhead, qtail, used, last>>
+b_pdeq(t) == /\ pc[t] = "b_pdeq"
+             /\ IF loc[t].ok THEN Goto(t, "q_take") /\ UNCHANGED lin ELSE Return(t, 0, 0, TRUE)
+             /\ UNCHANGED <<loc, budget, nextv, ring, stor, nxt, qhead, qtail, used, bad, last>>
+
+ThreadStep(t) == \/ StartPush(t) \/ StartPop(t) \/ b_deq(t) \/ b_enq(t) \/ b_pdeq(t)
                  \/ e_faa(t) \/ e_ld(t) \/ e_chk(t) \/ e_cas(t) \/ e_thr(t) \/ e_sthr(t)
                  \/ d_thr(t) \/ d_faa(t) \/ d_ld(t) \/ d_chk(t) \/ d_for(t) \/ d_cas(t) \/ d_after(t) \/ c_cas(t) \/ c_ldh(t) \/ d_fsube(t) \/ d_fsub(t)
                  \/ p_tail(t) \/ p_next(t) \/ p_ldn(t) \/ p_help(t) \/ tp_deq(t) \/ tp_enq(t) \/ p_new(t) \/ p_link(t) \/ st_deq(t) \/ st_dtor(t) \/ st_dtor2(t) \/ p_swing(t)
@@ -333,6 +349,7 @@ Done == \A t \in Threads : pc[t] = "idle" /\ budget[t] > Len(Progs[t + 1])
 \* programs
 ProgLost == << <<"push", "push", "pop">>, <<"pop", "push">> >>          \* push1; push2,pop | pop,push3
 ProgPP == << <<"push", "push">>, <<"pop", "pop">> >>
+ProgFill == << <<"push", "push", "pop">>, <<"push", "pop", "push">> >>      \* more pushes than entries (bounded: capacity 1 or 2)
 ProgMix == << <<"push", "pop", "push">>, <<"push", "pop">> >>
 Prog3 == << <<"push", "push">>, <<"pop", "push">>, <<"pop">> >>
 ConservedAtEnd == Done => Stored = (1 .. nextv - 1) \ lin.taken
